@@ -183,7 +183,7 @@ func usableTCP(h dns.HTTPS) bool {
 func TestC19(t *testing.T) {
 	rec := ev.Get("C19")
 	rec.Rule("per case a loopback deployment: 2..4 origins (distinct host names incl. IPv6 literals, several hosts on one listener, default and explicit ports, http and https URLs), each answered by a real crypto/tls HTTP server that issues a certificate for the requested SNI from the test CA and supports ECH, HTTPS RRsets drawn from none / service records with ALPN sets over {h3,h2,http/1.1,other}, no-default-alpn, distinct priorities, port=, ech=, targets / an alias to another name; Transport with or without a recording HTTP/3 round-tripper that dials through ech.Dialer with the request context; some targets marked down; 3..10 GETs across the origins with connection reuse. Oracle: plaintext refusal (http without HTTPS records fails, nothing reaches a server), http upgraded when HTTPS records exist, every request seen by a server carries the original Host, arrives with SNI = URL host on a connection dialed for that host and port, h3 chosen iff the reference decision over the record set says so and then exactly the h3-capable targets are offered (otherwise the h2/http1.1-compatible ones, in order), resp.Request is the caller's request. distinct = (origin shapes, record sets, request order); non-trivial = 2+ origins share an address or a record offers h3")
-	rec.Mandatory("same_host_other_port", "http_upgrade", "plaintext_refused", "h3_chosen", "h3_not_chosen_with_h3_record", "same_address_different_hosts", "ipv6_literal", "conn_reused", "explicit_port", "alias", "target_down")
+	rec.Mandatory("host_override", "same_host_other_port", "http_upgrade", "plaintext_refused", "h3_chosen", "h3_not_chosen_with_h3_record", "same_address_different_hosts", "ipv6_literal", "conn_reused", "explicit_port", "alias", "target_down")
 	rapid.Check(t, func(t *rapid.T) {
 		S := c19Start(t)
 		var cl []string
@@ -427,8 +427,16 @@ func TestC19(t *testing.T) {
 				reqID := fmt.Sprintf("req%d", i)
 				req, _ := http.NewRequest("GET", o.url(), nil)
 				req.Header.Set("X-Req-Id", reqID)
-				if rapid.Bool().Draw(t, "empty_req_host") {
+				wantHost := o.authority()
+				switch rapid.IntRange(0, 3).Draw(t, "req_host") {
+				case 0:
 					req.Host = "" // valid: the URL's authority is then the Host header
+				case 1:
+					// caller overrides the Host header: it must be sent as is, but the
+					// server is still authenticated against (and pooled by) the URL's host
+					req.Host = "override.c19.example"
+					wantHost = req.Host
+					cl = append(cl, "host_override")
 				}
 				dmu.Lock()
 				dialStart := len(dials)
@@ -500,8 +508,8 @@ func TestC19(t *testing.T) {
 					if rtc.mismatch {
 						ev.Violation(t, "C19", rp, "resp.Request is not the request the Transport was given")
 					}
-					if h3call.Host != o.authority() {
-						ev.Violation(t, "C19", rp, "HTTP/3 request carries Host %q, the URL authority is %q", h3call.Host, o.authority())
+					if h3call.Host != wantHost {
+						ev.Violation(t, "C19", rp, "HTTP/3 request carries Host %q, want %q (URL authority %q)", h3call.Host, wantHost, o.authority())
 					}
 					results = append(results, reqID+":h3")
 				case h3call != nil:
@@ -538,8 +546,8 @@ func TestC19(t *testing.T) {
 					if o.Scheme == "http" {
 						cl = append(cl, "http_upgrade")
 					}
-					if hit.Host != o.authority() {
-						ev.Violation(t, "C19", rp, "server saw Host %q, the URL authority is %q", hit.Host, o.authority())
+					if hit.Host != wantHost {
+						ev.Violation(t, "C19", rp, "server saw Host %q, want %q (URL authority %q)", hit.Host, wantHost, o.authority())
 					}
 					if !literal && hit.SNI != o.Host {
 						ev.Violation(t, "C19", rp, "server saw SNI %q for URL host %q", hit.SNI, o.Host)
@@ -588,7 +596,12 @@ func TestC19(t *testing.T) {
 							}
 						}
 						var gotSeq []string
+						succeeded := false
 						for _, d := range myDials {
+							if succeeded {
+								break // attempts released after the winning connection are not part of the sequence
+							}
+							succeeded = d.Err == ""
 							// attempts begun once the outcome was decided run under a cancelled
 							// (or about to be cancelled) context: not part of the sequence
 							if !d.Late && !strings.Contains(d.Err, "canceled") {
